@@ -180,6 +180,7 @@ func doPolicy(c *vhlib.Ctx, line string) {
 	c.NewCase()
 	journal(line)
 	progress.Add(1)
+	failLeft.Store(0)
 	curEngine = nil // goroutines spawned by tor.Expire run freely through the yield points
 	mark, _ := strconv.ParseInt(f[1], 10, 64)
 	var pts []*ptor
